@@ -176,7 +176,8 @@ Qed.
 (** ** finish *)
 Definition fin_early (m : muxer) : bool :=
   m_finished m || w_finalized (m_writer m) ||
-  ((U16MAX <? vt_width (m_video m)) || (U16MAX <? vt_height (m_video m))).
+  ((U16MAX <? vt_width (m_video m)) || (U16MAX <? vt_height (m_video m))) ||
+  param_sets_too_long (w_vconfig (m_writer m)).
 
 Definition fin_upd (m : muxer) (bw : N) (s : sink) (fin : bool) : muxer :=
   {| m_writer := with_sink (m_writer m) true bw s;
@@ -196,7 +197,10 @@ Proof.
   unfold finalize.
   destruct (w_finalized (m_writer m)) eqn:Fz.
   - eexists. destruct m; cbn in *; subst; reflexivity.
-  - cbn [orb] in H. rewrite H. eexists. destruct m; cbn in *; subst; reflexivity.
+  - cbn [orb] in H.
+    destruct ((U16MAX <? vt_width (m_video m)) || (U16MAX <? vt_height (m_video m))).
+    + eexists. destruct m; cbn in *; subst; reflexivity.
+    + cbn [orb] in H. rewrite H. eexists. destruct m; cbn in *; subst; reflexivity.
 Qed.
 
 Lemma fin_step_late m :
@@ -207,6 +211,8 @@ Proof.
   destruct (m_finished m) eqn:Ffin; [discriminate|].
   unfold finalize.
   destruct (w_finalized (m_writer m)) eqn:Fz; [discriminate|].
+  cbn [orb] in H.
+  destruct ((U16MAX <? vt_width (m_video m)) || (U16MAX <? vt_height (m_video m))); [discriminate|].
   cbn [orb] in H. rewrite H.
   destruct (if m_fast m then finalize_fast_start (m_writer m) (m_video m) (m_meta m) (effective_config (m_writer m))
             else finalize_standard (m_writer m) (m_video m) (m_meta m) (effective_config (m_writer m)))
@@ -1056,7 +1062,8 @@ Definition CexState (f : bool) (d : bytes) (m : muxer) : Prop :=
   w_finalized (m_writer m) = false /\ w_audio (m_writer m) = Some cex_track /\
   w_vrev (m_writer m) = [cex_sample d] /\ w_arev (m_writer m) = [] /\
   w_vlast_delta (m_writer m) = None /\ w_alast_delta (m_writer m) = None /\
-  sk_script (w_sink (m_writer m)) = [].
+  sk_script (w_sink (m_writer m)) = [] /\
+  param_sets_too_long (w_vconfig (m_writer m)) = false.
 
 Lemma cex_step1 f m0 :
   build (with_fast cex_builder f) [] = inl m0 ->
@@ -1081,7 +1088,7 @@ Proof.
   cbn [lift]. eexists. split; [reflexivity|].
   unfold CexState, set_video_ok.
   cbn [m_finished m_fast m_video m_writer w_finalized w_audio w_vrev w_arev w_vlast_delta w_alast_delta
-       w_sink sk_script].
+       w_sink sk_script w_vconfig].
   repeat split.
 Qed.
 
@@ -1098,10 +1105,10 @@ Section CexFinish.
   (* standard layout: the u32 cursor of the interleaved pass overflows after the frame was written *)
   Lemma cex_fin_std m : CexState false d m -> exists m', step m FIN = (m', RPanic PanicCursorOverflow).
   Proof.
-    intros (Hfin & Hfast & Hvid & Hz & Ha & Hv & Har & Hvl & Hal & Hs).
+    intros (Hfin & Hfast & Hvid & Hz & Ha & Hv & Har & Hvl & Hal & Hs & Hps).
     cbn [step]. unfold finish_in_place_with_stats. rewrite Hfin, Hfast. unfold finalize. rewrite Hz, Hvid.
     cbn [vt_width vt_height].
-    replace ((U16MAX <? 16) || (U16MAX <? 16)) with false by reflexivity.
+    replace ((U16MAX <? 16) || (U16MAX <? 16)) with false by reflexivity. rewrite Hps.
     unfold finalize_standard. cbv zeta. unfold vsamples, asamples. rewrite Ha, Hv, Har. cbn [rev app].
     rewrite cex_payload. change (payload_sum []) with 0.
     replace (U32MAX <? 8 + 4294967270 + 0) with false by reflexivity.
@@ -1128,10 +1135,10 @@ Section CexFinish.
   (* fast start: no panic site is reachable *)
   Lemma cex_fin_fast m : CexState true d m -> forall m' p, step m FIN <> (m', RPanic p).
   Proof.
-    intros (Hfin & Hfast & Hvid & Hz & Ha & Hv & Har & Hvl & Hal & Hs) m' p.
+    intros (Hfin & Hfast & Hvid & Hz & Ha & Hv & Har & Hvl & Hal & Hs & Hps) m' p.
     cbn [step]. unfold finish_in_place_with_stats. rewrite Hfin, Hfast. unfold finalize. rewrite Hz, Hvid.
     cbn [vt_width vt_height].
-    replace ((U16MAX <? 16) || (U16MAX <? 16)) with false by reflexivity.
+    replace ((U16MAX <? 16) || (U16MAX <? 16)) with false by reflexivity. rewrite Hps.
     unfold finalize_fast_start. cbv zeta. unfold vsamples, asamples. rewrite Ha, Hv, Har, Hvl, Hal. cbn [rev app].
     rewrite cex_payload. change (payload_sum []) with 0.
     replace (U32MAX <? 8 + 4294967270 + 0) with false by reflexivity.
